@@ -236,7 +236,7 @@ CLAIMS = {
         "technique": "rapid stateful/history-based property testing with hook-verified pool reuse + concurrent differential testing under the Go race detector",
     },
     "C05": {
-        "text": "Differential against fmt with leaf extents: the expected placement of every character comes from fmt's own rendering of the same format and shape, in which each leaf is bracketed by sentinels through a forwarding Formatter; two equalities (stripped text, text outside envelopes) then pin that exactly the unsafe leaves' complete renderings (padding, sign, quotes, prefixes) are enveloped and everything else is not. All subsets of registered types are visited (registry reset per case). Exploration; found and repaired F10 (registered types with methods in interface slots) and, with C06, F8.",
+        "text": "Differential against fmt with leaf extents: the expected placement of every character comes from fmt's own rendering of the same format and shape, in which each leaf is bracketed by sentinels through a forwarding Formatter; two equalities (stripped text, text outside envelopes) then pin that exactly the unsafe leaves' complete renderings (padding, sign, quotes, prefixes) are enveloped and everything else is not. All subsets of registered types are visited (registry reset per case); leaves are also placed in reflect.Value operands made from the value or designating an interface-typed slot. Exploration; found and repaired F10 and F11 (registered types with methods in interface slots of containers / of reflect.Value operands) and, with C06, F8.",
         "design_ref": "DESIGN.md §4.5",
         "note": "Leaves must be atomic under the directive that reaches them: named basic kinds for method-bearing nested leaves; complex numbers and []byte under %v/%d are containers of leaves with structural punctuation and are not used as leaves; %T/%p are outside (type and address are public); SafeFormatter leaves only under flagless directives (their SafeInt/SafeFloat inherit the active flags, which the property does not speak about). Trusted: fmt.FormatString round-trips the directive (no '*').",
         "technique": "rapid property-based differential testing against fmt with sentinel-delimited leaf extents, over all registry configurations",
